@@ -251,11 +251,11 @@ func exhaustive(r *vk.Run, u *universe) {
 					pr := u.pairs[ip]
 					t := tuple{uni: u.name, old: pr.old, src: pr.src, M: M, W: W, reset: reset}
 					runTuple(r, u, t, idx, "exhaustive", pr.name)
+					r.Count("exhaustive-tuples", 1)
 				}
 			}
 		}
 	}
-	r.Count("exhaustive-tuples", idx)
 	r.Exhaustive(true)
 }
 
@@ -283,6 +283,14 @@ func small(r *vk.Run, u *universe) {
 	for j := 0; j+1 < len(u.hot); j += 2 {
 		Ws = append(Ws, pathsMask(u.hot[j], u.hot[j+1]))
 	}
+	var relPairs [][]string
+	for _, p := range u.hot {
+		for _, q := range u.hot {
+			if p != q && covers(p, q) {
+				relPairs = append(relPairs, []string{p, q}, []string{q, p})
+			}
+		}
+	}
 	idx := 0
 	for iM, M := range Ms {
 		for iW, W := range Ws {
@@ -292,15 +300,18 @@ func small(r *vk.Run, u *universe) {
 					continue
 				}
 				var reset []string
-				if (iM+iW+ip)%3 == 0 {
+				switch (iM + iW + ip) % 6 {
+				case 0, 3:
 					reset = []string{u.hot[(iM+2*iW+ip)%len(u.hot)]}
+				case 1: // a reset mask naming a field and one of its sub-fields
+					reset = relPairs[(iM+iW)%len(relPairs)]
 				}
 				t := tuple{uni: u.name, old: pr.old, src: pr.src, M: M, W: W, reset: reset}
 				runTuple(r, u, t, idx, "small", pr.name)
+				r.Count("small-tuples:"+u.name, 1)
 			}
 		}
 	}
-	r.Count("small-tuples:"+u.name, idx)
 }
 
 func genPair(rng *vk.Rand, u *universe) (old, src proto.Message) {
@@ -324,7 +335,12 @@ func genPair(rng *vk.Rand, u *universe) (old, src proto.Message) {
 	if rng.Chance(1, 12) {
 		old = nil
 	}
-	return old, src
+	// proto.Clone drops a negative zero held in an implicit-presence float field (protobuf-go merges such fields with
+	// "if v != 0"); both messages are made clone-stable so that this quirk of the protobuf runtime is not mistaken for a change.
+	if old != nil {
+		old = proto.Clone(old)
+	}
+	return old, proto.Clone(src)
 }
 
 // enrich populates a random half of the pool paths so that the regions under test are rarely empty.
@@ -474,6 +490,7 @@ func random(r *vk.Run, u *universe) {
 		}
 		t := tuple{uni: u.name, old: old, src: src, M: M, W: W, reset: reset}
 		runTuple(r, u, t, i, "random", "")
+		r.Count("random-tuples:"+u.name, 1)
 	}
 }
 
@@ -537,11 +554,17 @@ func runTuple(r *vk.Run, u *universe, t tuple, idx int, part, pairName string) {
 		r.Count("w-expression:resource-writable-fields", 1)
 	}
 	rsp := sp
-	if a == apiCollectionCreate && t.old != nil {
-		// different stored state: the baseline is FieldUpdater on the same effective tuple
+	unnormW := !rt.W.isNil && !normalised(rt.W.paths)
+	if (a == apiCollectionCreate && t.old != nil) || unnormW {
+		// different stored state, or a writable mask that the resource layer normalises before FieldUpdater sees it:
+		// the baseline is FieldUpdater on the tuple the resource layer effectively executes
 		rsp = refMerge(rt.old, rt.src, rt.M, rt.W, rt.reset)
+		bt := rt
+		if unnormW {
+			bt.W = normaliseMask(rt.W)
+		}
 		base = map[string]bool{}
-		for _, f := range judge(nil, rt, rsp, driveDirect(rt), "", "") {
+		for _, f := range judge(nil, bt, rsp, driveDirect(bt), "", "") {
 			base[f.key] = true
 		}
 	}
@@ -618,6 +641,23 @@ func normalised(ps []string) bool {
 		}
 	}
 	return true
+}
+
+// normaliseMask drops duplicates and paths covered by another path (same set of fields).
+func normaliseMask(m mask) mask {
+	out := mask{isNil: m.isNil}
+	for i, p := range m.paths {
+		keep := true
+		for j, q := range m.paths {
+			if (q != p && covers(q, p)) || (q == p && j < i) {
+				keep = false
+			}
+		}
+		if keep {
+			out.paths = append(out.paths, p)
+		}
+	}
+	return out
 }
 
 // judge applies the statement to one execution. r == nil: no counting (used to compute a baseline).
